@@ -2267,6 +2267,16 @@ def conditional_expr_eval(a):
         return v
     r = t(1) if a else t(2)
     return (r, len(calls))
+
+
+def dict_comp_filtered(a, b):
+    d = {k: v for k, v in (("x", a), ("y", b), ("z", 0)) if v is not None}
+    return (len(d), "x" in d, d.get("y", -1), tuple(d))
+
+
+def dict_comp_filtered_truthy(a, b):
+    d = {k: v for k, v in (("x", a), ("y", b)) if v}
+    return (len(d), d.get("x"), d.get("y"))
 '''
 
 CASES = [
@@ -2639,6 +2649,8 @@ CASES = [
     ('star_args_call', [(2,)]),
     ('default_evaluated_once', [(1,)]),
     ('conditional_expr_eval', [(True,), (False,)]),
+    ('dict_comp_filtered', [(1, None), (None, 2), (None, None), (3, 4)]),
+    ('dict_comp_filtered_truthy', [(0, 5), (None, None), (2, 0)]),
 ]
 
 
